@@ -53,6 +53,12 @@ where
         loop {
             match self.records.next() {
                 Some(r) => {
+                    // A container may hold records of other reference sequences (multi-reference
+                    // slices).
+                    if r.reference_sequence_id() != Some(self.reference_sequence_id) {
+                        continue;
+                    }
+
                     if let (Some(start), Some(end)) = (r.alignment_start(), r.alignment_end()) {
                         let alignment_interval = (start..=end).into();
 
